@@ -86,11 +86,12 @@ def run(res, tier, seed):
             eps = gen_epochs(rng, n, style)
             if not eps:
                 continue
-            path = os.path.join(d, "TLE_sat%d.txt" % fi)
+            # three paths only: each is rewritten with the next file (an archive that is updated between passes of one process)
+            path = os.path.join(d, "TLE_sat%d.txt" % (fi % 3))
             make_file(path, eps)
             exact = [epoch_exact_ms(e) for e in eps]
             r = impl.reader_class("gac_klm")(tle_dir=d, tle_name="TLE_%(satname)s.txt")
-            r.spacecraft_name = "sat%d" % fi
+            r.spacecraft_name = "sat%d" % (fi % 3)
             # decoding
             dec = r.tle2datetime64(np.array([float(fmt_epoch(e)) for e in eps]))
             dec = [int(x) for x in dec.astype("datetime64[ms]").astype("int64")]
